@@ -304,15 +304,22 @@ class SimDisk(object):
         self._orig = None
 
     def used(self, sharedir):
+        """payload bytes of the share files under sharedir/<prefix>/<si>/ (incoming/ excluded):
+        file size - 12-byte header - 72 bytes per lease counted in the header."""
         total = 0
-        for dirpath, dirnames, filenames in os.walk(sharedir):
-            if os.path.relpath(dirpath, sharedir).split(os.sep)[0] == "incoming":
+        for prefix in os.listdir(sharedir):
+            if prefix == "incoming":
                 continue
-            for fn in filenames:
-                with open(os.path.join(dirpath, fn), "rb") as f:
-                    raw = f.read()
-                if len(raw) >= 12:
-                    total += len(parse_immutable(raw)["data"])
+            pdir = os.path.join(sharedir, prefix)
+            for si in os.listdir(pdir):
+                sdir = os.path.join(pdir, si)
+                for fn in os.listdir(sdir):
+                    with open(os.path.join(sdir, fn), "rb") as f:
+                        head = f.read(12)
+                        size = os.fstat(f.fileno()).st_size
+                    if len(head) == 12:
+                        (n,) = struct.unpack(">L", head[8:12])
+                        total += max(0, size - 12 - n * IMM_LEASE)
         return total
 
     def available(self, whichdir, reserved_space):
